@@ -21,6 +21,9 @@ def parseAct (s : String) : Option Act :=
   | [id, ac, nid, pt, v, vtx, a, e] => do
     pure { id := ← h id, action := ← h ac, nodeID := ← h nid, pointType := ← h pt, value := ← v.toNat?, valueText := ← h vtx,
            active := a == "1", error := ← h e }
+  | [id, ac, nid, pt, v, vtx, a, e, fp] => do
+    pure { id := ← h id, action := ← h ac, nodeID := ← h nid, pointType := ← h pt, value := ← v.toNat?, valueText := ← h vtx,
+           active := a == "1", error := ← h e, filePath := ← h fp }
   | _ => none
 
 def parseListWith {α} (f : String → Option α) (s : String) : Option (List α) :=
